@@ -216,6 +216,18 @@ func scenC05(r *Run) {
 		fmt.Fprintf(os.Stderr, "DUMP kinds=%v ref_mode=%v stream=%q\n", kinds, refMode, stream)
 	}
 	ref := decodeAll(hio.NewDecoder(stream).Simple(!refMode), mks)
+	// the same in-memory decode with a decoder that read from a reader before: nothing of that use may show
+	if ref.panicAt == "" {
+		d := hio.NewDecoderFromReader(&simReader{data: []byte(`s5"stale"i7;s3"abc"`), chunks: []int{4, 3}, errAt: -1})
+		var junk string
+		d.Decode(&junk)
+		own := append([]byte(nil), stream...)
+		again := decodeAll(d.ResetBytes(own).Simple(!refMode), mks)
+		if again.ec != ref.ec || !bytes.Equal(again.rem, ref.rem) || len(again.vals) != len(ref.vals) || again.panicAt != "" || !bytes.Equal(own, stream) {
+			r.Fail("C05:in-memory-decode-after-reader-use-differs", "a decoder that had read from a reader, reset to the bytes of the stream: %d values, error %q, %d bytes left, panic %q, input intact %v; a fresh decoder: %d values, error %q, %d bytes left (stream %q)", len(again.vals), again.errText, len(again.rem), again.panicAt, bytes.Equal(own, stream), len(ref.vals), ref.errText, len(ref.rem), clip(stream, 120))
+			return
+		}
+	}
 	if ref.panicAt != "" {
 		r.Fail("C05:in-memory-decode-panicked:"+ref.panicAt, "stream %q", stream)
 		return
